@@ -33,6 +33,7 @@ pub mod sched;
 pub mod c02_corpus;
 
 use ckh::*;
+use essential_asm as asm;
 use fw::Tier;
 use serde_json::{json, Value};
 use std::rc::Rc;
@@ -104,12 +105,35 @@ fn vm_bounds(tier: Tier) -> Bounds {
     Bounds { sched: tier.pick(2, 3), env: 0, max_runs: tier.pick(20_000, 400_000) }
 }
 
-fn emit(kind: &str, name: &str, case: Value, o: Outcome) {
-    let v: Vec<Value> = o.bad.iter().map(|(s, g)| json!({"schedule": s, "got": g})).collect();
+fn emit(kind: &str, name: &str, case: &Value, o: &Outcome, seeds: u64, hash_bad: &[(u64, String)]) {
+    let mut v: Vec<Value> = o.bad.iter().map(|(s, g)| json!({"schedule": s, "got": g, "hash_seed": 0})).collect();
+    v.extend(hash_bad.iter().map(|(seed, g)| json!({"schedule": [], "got": g, "hash_seed": seed})));
     println!(
         "{}",
-        json!({"name": name, "kind": kind, "schedules": o.schedules, "capped": o.capped, "want": o.seq, "distinct": o.seen.len(), "violations": v, "case": if o.bad.is_empty() { Value::Null } else { case }})
+        json!({"name": name, "kind": kind, "schedules": o.schedules, "capped": o.capped, "want": o.seq, "distinct": o.seen.len(), "hash_seeds": seeds, "violations": v, "case": if v.is_empty() { Value::Null } else { case.clone() }})
     );
+}
+
+/// Number of hash seeds swept (1 when the hash collections are not re-bound in this build).
+fn hash_seeds(tier: Tier) -> u64 {
+    if cfg!(syncmc_hash) {
+        tier.pick(8, 32)
+    } else {
+        1
+    }
+}
+
+fn ck_run(case: &CkCase) -> impl Fn() -> String + Send + Sync + Clone + 'static {
+    let b = Arc::new(build(case));
+    let c = Arc::new(case.clone());
+    move || ck_obs(&c, &b)
+}
+
+fn vm_run(ops: &[asm::Op], init: &refvm::RVm, envk: &str) -> impl Fn() -> RealOut + Send + Sync + Clone + 'static {
+    let env = ProgEnv::named(envk, Cost::Const(1), 100_000);
+    let h = Holey { ops: Arc::new(ops.iter().cloned().map(Some).collect()) };
+    let i2 = init.clone();
+    move || run_real_with(&i2, h.clone(), &env, false)
 }
 
 fn main() {
@@ -125,24 +149,43 @@ fn main() {
     let tier = if args.first().map(|s| s == "thorough").unwrap_or(false) { Tier::Thorough } else { Tier::Quick };
     let names: std::collections::BTreeSet<String> = args.iter().skip(1).cloned().collect();
     let want = |n: &str| names.is_empty() || names.contains(n);
+    // schedules, under hash seed 0 (every map any run uses is built after the seed is set)
+    sx::set_hash_seed(0);
+    let mut done: Vec<(&'static str, String, Value, Outcome, Vec<(u64, String)>)> = vec![];
     for (name, case) in c02_corpus::checker_inputs() {
-        if !want(&name) {
-            continue;
+        if want(&name) {
+            let o = explore(&ck_bounds(tier), ck_run(&case), |s: &String| s.clone());
+            done.push(("ck-sync", name, json!({"kind": "ck-sync", "case": case}), o, vec![]));
         }
-        let b = Arc::new(build(&case));
-        let c = Arc::new(case.clone());
-        let o = explore(&ck_bounds(tier), move || ck_obs(&c, &b), |s: &String| s.clone());
-        emit("ck-sync", &name, json!({"kind": "ck-sync", "case": case}), o);
     }
     for (name, ops, init, envk) in c02_corpus::vm_programs() {
-        if !want(&name) {
-            continue;
+        if want(&name) {
+            let o = explore(&vm_bounds(tier), vm_run(&ops, &init, envk), |o| format!("{:?}", sched_obs(o)));
+            done.push(("vm-sync", name, json!({"kind": "vm-sync", "ops_hex": ops_hex(&ops), "init": RvmSer::from(&init), "env": envk}), o, vec![]));
         }
-        let env = ProgEnv::named(envk, Cost::Const(1), 100_000);
-        let h = Holey { ops: Arc::new(ops.iter().cloned().map(Some).collect()) };
-        let i2 = init.clone();
-        let o = explore(&vm_bounds(tier), move || run_real_with(&i2, h.clone(), &env, false), |o| format!("{:?}", sched_obs(o)));
-        emit("vm-sync", &name, json!({"kind": "vm-sync", "ops_hex": ops_hex(&ops), "init": RvmSer::from(&init), "env": envk}), o);
+    }
+    // hash seeds: the sequential result must not depend on the iteration order of hash collections
+    let seeds = hash_seeds(tier);
+    for seed in 1..seeds {
+        sx::set_hash_seed(seed);
+        let cks: std::collections::BTreeMap<String, CkCase> = c02_corpus::checker_inputs().into_iter().collect();
+        let vms: std::collections::BTreeMap<String, _> = c02_corpus::vm_programs().into_iter().map(|(n, o, i, e)| (n, (o, i, e))).collect();
+        for (kind, name, _, o, bad) in done.iter_mut() {
+            let got = if *kind == "ck-sync" {
+                sequential_in_shuttle(ck_run(&cks[name.as_str()]))
+            } else {
+                let (ops, init, envk) = &vms[name.as_str()];
+                sequential_in_shuttle(vm_run(ops, init, envk)).map(|o| format!("{:?}", sched_obs(&o)))
+            }
+            .unwrap_or_else(|e| format!("PANIC/DEADLOCK {e}"));
+            if got != o.seq && bad.len() < 2 {
+                bad.push((seed, got));
+            }
+        }
+    }
+    sx::set_hash_seed(0);
+    for (kind, name, case, o, bad) in &done {
+        emit(kind, name, case, o, seeds, bad);
     }
 }
 
@@ -154,6 +197,7 @@ fn replay(path: &str) -> i32 {
         Ok(c) => c,
         Err(_) => return 2,
     };
+    let seed = case["hash_seed"].as_u64().unwrap_or(0);
     let run_twice = |f: &dyn Fn(&xplore::Ctx) -> String, seq: String| -> i32 {
         let mut outs = vec![];
         for _ in 0..2 {
@@ -179,33 +223,22 @@ fn replay(path: &str) -> i32 {
     match case["kind"].as_str() {
         Some("ck-sync") => {
             let Ok(c) = serde_json::from_value::<CkCase>(case["case"].clone()) else { return 2 };
-            let b = Arc::new(build(&c));
-            let c = Arc::new(c);
-            let (c1, b1) = (c.clone(), b.clone());
-            let seq = sequential_in_shuttle(move || ck_obs(&c1, &b1)).unwrap_or_else(|e| format!("PANIC/DEADLOCK {e}"));
-            run_twice(
-                &|ctx| {
-                    let (c2, b2) = (c.clone(), b.clone());
-                    sched::run_threads(ctx, move || ck_obs(&c2, &b2)).unwrap_or_else(|e| format!("PANIC/DEADLOCK {e}"))
-                },
-                seq,
-            )
+            sx::set_hash_seed(0);
+            let seq = sequential_in_shuttle(ck_run(&c)).unwrap_or_else(|e| format!("PANIC/DEADLOCK {e}"));
+            sx::set_hash_seed(seed);
+            let f = ck_run(&c);
+            run_twice(&|ctx| sched::run_threads(ctx, f.clone()).unwrap_or_else(|e| format!("PANIC/DEADLOCK {e}")), seq)
         }
         Some("vm-sync") => {
             let Ok(init) = serde_json::from_value::<RvmSer>(case["init"].clone()) else { return 2 };
             let init: refvm::RVm = (&init).into();
             let Some(ops) = case["ops_hex"].as_str().and_then(|h| ops_from_hex(h).ok()) else { return 2 };
-            let env = ProgEnv::named(case["env"].as_str().unwrap_or("basic"), Cost::Const(1), 100_000);
-            let h = Holey { ops: Arc::new(ops.iter().cloned().map(Some).collect()) };
-            let (i1, h1, e1) = (init.clone(), h.clone(), env.clone());
-            let seq = sequential_in_shuttle(move || run_real_with(&i1, h1.clone(), &e1, false)).map(|o| format!("{:?}", sched_obs(&o))).unwrap_or_else(|e| format!("PANIC/DEADLOCK {e}"));
-            run_twice(
-                &|ctx| {
-                    let (i2, h2, e2) = (init.clone(), h.clone(), env.clone());
-                    sched::run_threads(ctx, move || run_real_with(&i2, h2.clone(), &e2, false)).map(|o| format!("{:?}", sched_obs(&o))).unwrap_or_else(|e| format!("PANIC/DEADLOCK {e}"))
-                },
-                seq,
-            )
+            let envk = case["env"].as_str().unwrap_or("basic").to_string();
+            sx::set_hash_seed(0);
+            let seq = sequential_in_shuttle(vm_run(&ops, &init, &envk)).map(|o| format!("{:?}", sched_obs(&o))).unwrap_or_else(|e| format!("PANIC/DEADLOCK {e}"));
+            sx::set_hash_seed(seed);
+            let f = vm_run(&ops, &init, &envk);
+            run_twice(&|ctx| sched::run_threads(ctx, f.clone()).map(|o| format!("{:?}", sched_obs(&o))).unwrap_or_else(|e| format!("PANIC/DEADLOCK {e}")), seq)
         }
         _ => 2,
     }
